@@ -291,6 +291,13 @@ OtherPlan == {
   <<"bc", "requested-second-commit-bad-vote", "Drop">>, <<"bc", "requested-second-commit-neg-height", "Drop">>,
   <<"bc", "requested-second-nil-data", "Accept">>,          \* block 2's LastCommit is what verifies block 1
   <<"bc", "requested-valid", "Accept">>,
+  \* responses the pool did not ask for in that form, while block 1 still waits for block 2 (height not popped): the
+  \* requester / pool refuse them (bpRequester.setBlock: block already set, or another peer; AddBlock: no requester),
+  \* nothing blocks, and honest responses afterwards are executed: the sync completes ("Accept")
+  <<"bc", "response-duplicate", "Accept">>,            \* the assigned peer answers the same request twice
+  <<"bc", "response-two-different", "Accept">>,        \* ... with two different blocks for the height
+  <<"bc", "response-nonassigned-peer", "Accept">>,     \* a peer the request was not assigned to
+  <<"bc", "response-unrequested-height", "Accept">>,   \* a height nobody asked this peer for
   <<"mempool", "tx-small", "Accept">>, <<"mempool", "tx-empty", "Accept">>, <<"mempool", "tx-big", "Accept">>,
   <<"mempool", "tx-over-limit", "Drop">>, <<"mempool", "tx-length-lie", "Drop">>, <<"mempool", "tx-neg-length", "Drop">>,
   <<"mempool", "tx-duplicate", "Drop">>, <<"mempool", "raw-empty", "Disconnect">>, <<"mempool", "raw-unknowntype", "Drop">>,
